@@ -547,3 +547,6 @@ def check(run):
     from . import c10 as _c10
     run.rules_run.append("R05j")
     run.rule(_c10.option_defaults, run, "R05j", {'ignore_required': 'False', 'no_default': 'False', 'defer_default': 'False', 'force_default': 'unprovided', 'addition': 'None', 'ignore_alias_conflicts': 'False'}, "the field contract applies as declared under the default options")
+    from . import c18 as _c18
+    run.rules_run.append("R18l")
+    run.rule(_c18.r18l, run)
